@@ -880,6 +880,8 @@ def gen_cases(tier, rng):
 
 
 def run(rep, tier, rng, drv):
+    setup()
+
     def cases():
         for c in gen_cases(tier, rng):
             if c["op"] == "wmi.ctrlname":
